@@ -103,9 +103,14 @@ def snapshot(outline):
                        "rows": [list(r.cells) for r in s.table.rows] if s.table is not None else None} for s in outline.steps]}
 
 
-def _parse():
+# the same outline with placeholders ONLY in the doc-string and the step table (all step names are plain text)
+TEXT_PLAIN_NAMES = TEXT.replace("Given step with <a>", "Given step with a table").replace("When doc <b>:", "When doc follows:") \
+                       .replace("And total > <a> but -> <b> ok", "And total > a but -> b ok")
+
+
+def _parse(variant=None):
     from behave.parser import parse_feature
-    f = parse_feature(TEXT, filename="o.feature")
+    f = parse_feature(TEXT_PLAIN_NAMES if variant == "plain-names" else TEXT, filename="o.feature")
     return f, f.run_items[0]
 
 
@@ -114,8 +119,8 @@ def eqv(a, b):
 
 
 def h_expand(sx):
-    f, outline = _parse()
     p = sx.params
+    f, outline = _parse(p.get("variant"))
     bi, ri = p["block"], p["row"]
     schema = SCHEMAS[p.get("schema", 0)]
     outline.annotation_schema = schema
@@ -230,6 +235,9 @@ def jobs(tier, seed):
                           reach=["C06.name-substituted", "C06.step-name-substituted", "C06.doc-string-substituted", "C06.step-table-substituted",
                                  "C06.tags=outline+examples", "C06.located-at-row-line", "C06.template-unchanged"],
                           min_paths=1, cost=100, validate=40, closure=False))
+    js.append(Job("expand.plain-names", "props.c06:h_expand", {"block": 0, "row": 1, "schema": 0, "variant": "plain-names"},
+                  reach=["C06.doc-string-substituted", "C06.step-table-substituted", "C06.template-unchanged"],
+                  min_paths=1, cost=100, validate=40, closure=False))
     js.append(Job("history", "props.c06:h_history", {"n": 2 if tier == "quick" else 3},
                   reach=["C06.rebuilt-after-table-change(names)"], min_paths=20, cost=200, validate=60, closure=False))
     return js
